@@ -33,17 +33,20 @@ ASSUMPTIONS = ['exact arithmetic: all scalars/vectors/points are small integers 
                'on 40 odl classes, RealPart/ImagPart on complex spaces violate it for complex scalars)',
                'one scalar field per expression (real trees on rn, complex trees on cn); operators between real '
                'and complex spaces are only probed']
-TRUSTED = ['C04/Model.v build/eval/eval_ip as a transcription of the overloads and _call bodies (tied by the '
-           'structural + value correspondence on every run)',
+TRUSTED = ['C04/Model.v eval/eval_ip/ipp/oop/ip as a transcription of the _call bodies and the constructors\' checks '
+           '(tied by the structural + value correspondence on every run); the overload DISPATCH is regenerated '
+           'and proved equal to build',
            'translate/op_tables.py (Python ast of the classes\' __init__ -> Gen/OpTables.v), fail-closed',
+           'translate/op_dispatch.py (overload bodies -> decision trees, MRO owners, reflected-first relation) and '
+           'the meaning given to each test / returned expression in C04/Dispatch.v',
            'Python operator dispatch rule "reflected method of a proper subclass first" as modelled by subclass_radd']
 
 MAXMAG = 2 ** 40
 
 
 def translate():
-    from translate import op_tables
-    return {'Gen/OpTables.v': op_tables.translate()}
+    from translate import op_tables, op_dispatch
+    return {'Gen/OpTables.v': op_tables.translate(), 'Gen/OpDispatch.v': op_dispatch.translate()}
 
 
 # ------------------------------------------------------------------ the pool
@@ -59,6 +62,52 @@ class Leaf(object):
 _CLS = {}
 
 
+def pflat(x):
+    """1-d numpy copy of any element (product-space elements are concatenated part by part)."""
+    import numpy as np
+    import odl
+    sp = getattr(x, 'space', None)
+    if isinstance(sp, odl.ProductSpace):
+        return np.concatenate([pflat(p) for p in x]) if len(sp) else np.zeros(0)
+    return np.array(np.asarray(x)).ravel()
+
+
+def pdim(sp):
+    import odl
+    if isinstance(sp, odl.ProductSpace):
+        return sum(pdim(s) for s in sp)
+    return int(sp.size)
+
+
+def pput(sp, arr):
+    """element of sp with the flat entries arr"""
+    import numpy as np
+    import odl
+    arr = np.asarray(arr)
+    if isinstance(sp, odl.ProductSpace):
+        parts, k = [], 0
+        for s in sp:
+            n = pdim(s)
+            parts.append(pput(s, arr[k:k + n]))
+            k += n
+        return sp.element(parts)
+    if isinstance(sp, odl.set.sets.Field):
+        return sp.element(arr.ravel()[0])
+    return sp.element(arr.reshape(sp.shape))
+
+
+def pshares(y, x):
+    import numpy as np
+    import odl
+    if isinstance(getattr(x, 'space', None), odl.ProductSpace):
+        if not isinstance(getattr(y, 'space', None), odl.ProductSpace):
+            return False
+        return any(pshares(a, b) for a in y for b in x)
+    if isinstance(getattr(y, 'space', None), odl.ProductSpace):
+        return any(pshares(a, x) for a in y)
+    return bool(np.shares_memory(np.asarray(y), np.asarray(x)))
+
+
 def _classes():
     """Custom leaf classes (defined lazily: odl may only be imported inside functions)."""
     if _CLS:
@@ -67,18 +116,19 @@ def _classes():
     import odl
 
     def mk_call(style, f):
-        # the three signatures Operator._dispatch_call_args understands
+        # the three signatures Operator._dispatch_call_args understands; entries are read / written
+        # through pflat / pput so that the same classes work on product spaces
         if style == 'oop':
             def _call(self, x):
-                return f(self, x)
+                return pput(self.range, f(self, pflat(x)))
         elif style == 'ip':
             def _call(self, x, out):
-                out[:] = f(self, x)
+                out.assign(pput(self.range, f(self, pflat(x))))
         else:
             def _call(self, x, out=None):
                 if out is None:
-                    return f(self, x)
-                out[:] = f(self, x)
+                    return pput(self.range, f(self, pflat(x)))
+                out.assign(pput(self.range, f(self, pflat(x))))
         return _call
 
     for style in ('oop', 'ip', 'both'):
@@ -86,18 +136,18 @@ def _classes():
             def __init__(self, dom, ran, M, b):
                 odl.Operator.__init__(self, dom, ran, linear=False)
                 self.M, self.b = np.asarray(M), np.asarray(b)
-            _call = mk_call(style, lambda self, x: self.M.dot(np.asarray(x)) + self.b)
+            _call = mk_call(style, lambda self, x: self.M.dot(x) + self.b)
 
         class SqOp(odl.Operator):
             def __init__(self, sp, b):
                 odl.Operator.__init__(self, sp, sp, linear=False)
                 self.b = np.asarray(b)
-            _call = mk_call(style, lambda self, x: np.asarray(x) * np.asarray(x) + self.b)
+            _call = mk_call(style, lambda self, x: x * x + self.b)
         class MatOp(odl.Operator):
             def __init__(self, dom, ran, M):
                 odl.Operator.__init__(self, dom, ran, linear=True)
                 self.M = np.asarray(M)
-            _call = mk_call(style, lambda self, x: self.M.dot(np.asarray(x)))
+            _call = mk_call(style, lambda self, x: self.M.dot(x))
         _CLS['aff_' + style] = AffOp
         _CLS['sq_' + style] = SqOp
         _CLS['mat_' + style] = MatOp
@@ -166,7 +216,7 @@ def _classes():
             self.w = np.asarray(w)
 
         def _call(self, x):
-            return (self.w * np.asarray(x)).sum()
+            return (self.w * pflat(x)).sum()
 
     class QuadFunc(odl.solvers.Functional):
         def __init__(self, sp, w, b, c):
@@ -174,7 +224,7 @@ def _classes():
             self.w, self.b, self.c = np.asarray(w), np.asarray(b), c
 
         def _call(self, x):
-            d = np.asarray(x) - self.b
+            d = pflat(x) - self.b
             return (self.w * d * d).sum() + self.c
 
     class NQuadOp(odl.Operator):
@@ -183,7 +233,7 @@ def _classes():
             self.w, self.c = np.asarray(w), c
 
         def _call(self, x):
-            return (self.w * np.asarray(x) * np.asarray(x)).sum() + self.c
+            return (self.w * pflat(x) * pflat(x)).sum() + self.c
 
     _CLS.update(LinFunc=LinFunc, QuadFunc=QuadFunc, NQuadOp=NQuadOp)
     return _CLS
@@ -195,8 +245,8 @@ class Ctx(object):
     def __init__(self, rng, cplx, kind='rn'):
         self.rng, self.cplx, self.nleaf = rng, cplx, 0
         self.leaves = []
-        self.kind = kind                        # 'rn' | 'wrn' (constant weighting 2) | 'discr' (cell volume 2)
-        self.cw = 1 if kind == 'rn' else 2      # factor in inner products / norms
+        self.kind = kind        # 'rn' | 'wrn' (constant weighting 2) | 'discr' (cell volume 2) | 'prod' (rn(1) x rn(n-1))
+        self.cw = 1 if kind in ('rn', 'prod') else 2      # factor in inner products / norms
         self._sp = {}
 
     # -- spaces / numbers
@@ -208,10 +258,16 @@ class Ctx(object):
                 sp = odl.cn(n) if self.cplx else odl.rn(n)
             elif self.kind == 'wrn':
                 sp = odl.cn(n, weighting=2.0) if self.cplx else odl.rn(n, weighting=2.0)
+            elif self.kind == 'prod':
+                base = odl.cn if self.cplx else odl.rn
+                sp = odl.ProductSpace(base(1)) if n == 1 else odl.ProductSpace(base(1), base(n - 1))
             else:
                 sp = odl.uniform_discr(0, 2 * n, n, dtype=dt)
             self._sp[n] = sp
         return self._sp[n]
+
+    def el(self, n, entries):
+        return pput(self.space(n), entries)
 
     def num(self, small=False):
         r = self.rng
@@ -317,11 +373,14 @@ def make_leaf(ctx, dom, ran, want=None):
     r = ctx.rng
     style = r.choice(['oop', 'ip', 'both'])
     if ran == 'F':
-        kinds = ['flin', 'fquad', 'l2sq', 'ip', 'nquad'] + ([] if (ctx.cplx or ctx.cw != 1) else ['fl1'])
+        kinds = ['flin', 'fquad', 'l2sq', 'ip', 'nquad'] + \
+            ([] if (ctx.cplx or ctx.cw != 1 or ctx.kind == 'prod') else ['fl1'])
         if want == 'func':
             kinds = [k for k in kinds if k not in ('ip', 'nquad')]
         if want == 'lin':
             kinds = ['flin', 'ip']
+        if want in ('ip', 'nquad', 'fquad', 'flin'):
+            kinds = [want]
         k = r.choice(kinds)
         if k == 'l2sq' and ctx.cplx:
             k = 'fquad'
@@ -341,6 +400,10 @@ def make_leaf(ctx, dom, ran, want=None):
         if want in SPECIAL_KINDS:
             kinds = [want]
         k = r.choice(kinds)
+        if ctx.kind == 'prod':
+            # built-ins that need tensor spaces / indexing are replaced by the flat-entry custom classes
+            k = {'abs': 'sq', 'stencil': 'mat', 'nstencil': 'sq', 'viewx': 'retx', 'realpart': 'retx',
+                 'pderiv': 'mat', 'lap': 'mat'}.get(k, k)
         if k == 'lap':
             # odl.Laplacian's in-place call starts with out.set_zero(), which keeps NaN on small spaces
             # (0*NaN; known C01/C03 finding): it violates the leaf contract for a NaN-filled `out`, so the
@@ -378,7 +441,7 @@ def leaf_from_spec(ctx, spec):
         elif k == 'ip':
             # InnerProductOperator(y)(x) = <x, y> = sum x_i conj(y_i): use y = conj(w)
             y = [complex(a).conjugate() for a in w] if ctx.cplx else w
-            op = odl.InnerProductOperator(sp.element(y))
+            op = odl.InnerProductOperator(pput(sp, np.array(y, dtype=dt)))
             w = [ctx.cw * a for a in w]         # the space's inner product carries the weight / cell volume
             fw = [fr(a) for a in w]
             lf = Leaf(op, '(%sIP %d %s)' % (p, i, ctx.qs(w)), dom, 'F', True, False,
@@ -445,7 +508,7 @@ def leaf_from_spec(ctx, spec):
             for j in range(dom):
                 e = [0.0] * dom
                 e[j] = 1.0
-                cols.append(flat(ctx, op(sp.element(e))))
+                cols.append(flat(ctx, op(pput(sp, np.array(e)))))
             M = [[cols[j][i_] for j in range(dom)] for i_ in range(dom)]
             safe = False
         fM = [[fr(u) for u in row] for row in M]
@@ -481,7 +544,7 @@ def leaf_from_spec(ctx, spec):
                       lambda x: [vsum([a * u for a, u in zip(row, x)]) + bb for row, bb in zip(fM, fb)], k)
         else:
             if k == 'mat':
-                if ctx.kind != 'discr' and spec.get('builtin', True):
+                if ctx.kind not in ('discr', 'prod') and spec.get('builtin', True):
                     op = odl.MatrixOperator(np.array(M, dtype=dt), domain=sp, range=rsp)
                 else:
                     op = K['mat_' + style](sp, rsp, np.array(M, dtype=dt))
@@ -492,7 +555,7 @@ def leaf_from_spec(ctx, spec):
             elif k == 'zero':
                 op = odl.ZeroOperator(sp)
             else:
-                op = odl.MultiplyOperator(sp.element(v), domain=sp, range=sp)
+                op = odl.MultiplyOperator(pput(sp, np.array(v, dtype=dt)), domain=sp, range=sp)
             lf = Leaf(op, '(%sMat %d %d %s)' % (p, i, dom, ctx.qss(M)), dom, ran, True, False,
                       lambda x: [vsum([a * u for a, u in zip(row, x)]) for row in fM], k)
     elif k in ('sq', 'pow2'):
@@ -654,6 +717,9 @@ def to_coq(ctx, t):
         return '(%s %s %s)' % (va[k], ctx.qs(t[2]), to_coq(ctx, t[1]))
     ac = {'addc': 'SAddC', 'subc': 'SSubC', 'mulc': 'SMulC', 'matmulc': 'SMulC', 'divc': 'SDivC'}
     if k in ac:
+        if ac[k] in ('SMulC', 'SDivC'):      # the Python TYPE of the scalar matters to Operator.__mul__
+            import numbers
+            return '(%s %s %s %s)' % (ac[k], to_coq(ctx, t[1]), ctx.q(t[2]), C.b(isinstance(t[2], numbers.Real)))
         return '(%s %s %s)' % (ac[k], to_coq(ctx, t[1]), ctx.q(t[2]))
     ca = {'cadd': 'SCAdd', 'csub': 'SCSub', 'cmul': 'SCMul'}
     if k in ca:
@@ -715,7 +781,7 @@ def _py_build(ctx, t):
     if k == 'pow':
         return a ** t[2]
     if k in ('addv', 'vadd', 'subv', 'vsub', 'mulv', 'matmulv', 'vmul', 'vmatmul'):
-        v = ctx.space(len(t[2])).element(t[2])
+        v = ctx.el(len(t[2]), t[2])
         return {'addv': lambda: a + v, 'vadd': lambda: v + a, 'subv': lambda: a - v, 'vsub': lambda: v - a,
                 'mulv': lambda: a * v, 'matmulv': lambda: a @ v, 'vmul': lambda: v * a,
                 'vmatmul': lambda: v @ a}[k]()
@@ -909,12 +975,12 @@ def sp_term(ctx, s):
     import odl
     if isinstance(s, odl.set.sets.Field):
         return 'SF', 'F'
-    return '(SV %d)' % s.size, s.size
+    return '(SV %d)' % pdim(s), pdim(s)
 
 
 def flat(ctx, y):
     import numpy as np
-    a = np.asarray(y).ravel()
+    a = pflat(y) if hasattr(y, 'space') else np.asarray(y).ravel()
     return [complex(u) if ctx.cplx else float(u) for u in a.tolist()]
 
 
@@ -964,12 +1030,12 @@ def run_case(ctx, t, npts=2):
                 break
         else:
             continue
-        xe = o.domain.element(x)
-        xbytes = np.asarray(xe).tobytes()
+        xe = pput(o.domain, x)
+        xbytes = pflat(xe).tobytes()
         try:
             y = o(xe)
             if rr != 'F':
-                o(xe.copy(), out=o.range.element(np.full(rr, np.nan)))
+                o(xe.copy(), out=pput(o.range, np.full(rr, np.nan)))
         except Exception as e:      # noqa -- an accepted expression must evaluate in and out of place
             term = ('{| c_vt := vt_now; c_kon := %s; c_expr := %s; c_build := BOther; c_points := [] |}'
                     % (kon_term(ctx), to_coq(ctx, t)))
@@ -981,14 +1047,14 @@ def run_case(ctx, t, npts=2):
         ip = 'None'
         nonfinite = not all(math.isfinite(abs(complex(u))) for u in out)
         if rr != 'F':
-            buf = o.range.element(np.full(rr, np.nan))
+            buf = pput(o.range, np.full(rr, np.nan))
             res = o(xe, out=buf)
             ipv = flat(ctx, buf)
             nonfinite = nonfinite or res is not buf or not all(math.isfinite(abs(complex(u))) for u in ipv)
             if not nonfinite:
                 ip = '(Some %s)' % ctx.qs(ipv)
         out3 = flat(ctx, o(xe))                     # and once more after the in-place call
-        if np.asarray(xe).tobytes() != xbytes or repr(out2) != repr(out) or repr(out3) != repr(out):
+        if pflat(xe).tobytes() != xbytes or repr(out2) != repr(out) or repr(out3) != repr(out):
             term = '{| c_vt := vt_now; c_kon := %s; c_expr := %s; c_build := BOther; c_points := [] |}' % (kon_term(ctx), to_coq(ctx, t))
             return term, {'expr': src_skeleton(t), 'x': x, 'first': out, 'second': out2, 'after_inplace': out3,
                           'outcome': 'evaluation is not repeatable or x was modified',
@@ -999,9 +1065,19 @@ def run_case(ctx, t, npts=2):
             term = '{| c_vt := vt_now; c_kon := %s; c_expr := %s; c_build := BOther; c_points := [] |}' % (kon_term(ctx), to_coq(ctx, t))
             return term, {'expr': src_skeleton(t), 'outcome': 'non-finite value or `out` not returned', 'x': x}, \
                 ('nonfinite', src_skeleton(t))
-        shares = bool(rr != 'F' and np.shares_memory(np.asarray(y), np.asarray(xe)))
-        pts.append('{| p_x := %s; p_out := %s; p_ip := %s; p_alias := %s |}'
-                   % (ctx.qs(x), ctx.qs(out), ip, C.b(shares)))
+        shares = bool(rr != 'F' and pshares(y, xe))
+        xx = 'None'
+        if rr != 'F' and o.domain == o.range:
+            xa = xe.copy()
+            try:
+                if o(xa, out=xa) is xa and all(math.isfinite(abs(complex(u))) for u in flat(ctx, xa)):
+                    xx = '(Some %s)' % ctx.qs(flat(ctx, xa))
+                else:
+                    xx = '(Some [])'          # never equal to a model value: fails wherever oalias holds
+            except Exception:   # noqa
+                xx = '(Some [])'
+        pts.append('{| p_x := %s; p_out := %s; p_ip := %s; p_alias := %s; p_xx := %s |}'
+                   % (ctx.qs(x), ctx.qs(out), ip, C.b(shares), xx))
     term = ('{| c_vt := vt_now; c_kon := %s; c_expr := %s; c_build := BOk %s %s %s %s %s; c_points := %s |}'
             % (kon_term(ctx), to_coq(ctx, t), sk, dterm, rterm, C.b(bool(o.is_linear)), C.b(isinstance(o, Functional)),
                C.lst(pts)))
@@ -1021,18 +1097,22 @@ def measure_variant():
         vecsum = type(o).__name__ == 'OperatorVectorSum'
     except TypeError:
         vecsum = False
-    return frvec, vecsum
+    import numpy as np
+    c2 = odl.cn(2)
+    realonly = type(odl.MatrixOperator(np.eye(2, dtype=complex), domain=c2, range=c2) * 1j).__name__ \
+        == 'OperatorRightScalarMult'
+    return frvec, vecsum, realonly
 
 
 def correspondence(rng, tier):
-    frvec, vecsum = measure_variant()
-    prelude = ('Definition vt_now : variant := {| v_frvec_lin := %s; v_vecsum_field := %s |}.'
-               % (C.b(frvec), C.b(vecsum)))
+    frvec, vecsum, realonly = measure_variant()
+    prelude = ('Definition vt_now : variant := {| v_frvec_lin := %s; v_vecsum_field := %s; v_real_shortcut := %s |}.'
+               % (C.b(frvec), C.b(vecsum), C.b(realonly)))
     cs = C.CaseSet('real', ['Base.Vec', 'C04.Model', 'C04.Corr'], 'check_real', 'case Q', prelude=prelude)
     n = 900 if tier == 'quick' else 7500
     maxd = 4 if tier == 'quick' else 7
     for i in range(n):
-        ctx = Ctx(rng, False, rng.choice(['rn', 'rn', 'wrn', 'discr']))
+        ctx = Ctx(rng, False, rng.choice(['rn', 'rn', 'wrn', 'discr', 'prod']))
         depth = rng.randint(1, maxd)
         ran = rng.choice(DIMS + ['F', 'F'])
         t = gen(ctx, depth, rng.choice(DIMS), ran, p_bad=0.03)
@@ -1057,9 +1137,14 @@ def correspondence(rng, tier):
                     t2 = thaw(c2, freeze(t))
                     term, desc, key = run_case(c2, t2, npts=1)
                     cset.add(term, desc, key)
+    ctx0 = Ctx(rng, False)
+    for t in _reflected_trees(ctx0):
+        c2 = Ctx(rng, False)
+        term, desc, key = run_case(c2, thaw(c2, freeze(t)), npts=1)
+        cs.add(term, desc, key)
     # memory-contract patterns on every space kind (leaves that are not alias-safe / alias their input)
     for cplx, cset in ((False, cs),):
-        for kind in ('rn', 'discr', 'wrn'):
+        for kind in ('rn', 'discr', 'wrn', 'prod'):
             ctx0 = Ctx(rng, cplx, kind)
             for t in _memory_trees(ctx0):
                 c2 = Ctx(rng, cplx, kind)
@@ -1069,7 +1154,7 @@ def correspondence(rng, tier):
     cc = C.CaseSet('complex', ['Base.Vec', 'C04.Model', 'C04.Cplx', 'C04.Corr'], 'check_cplx', 'case QC',
                    prelude=prelude)
     for i in range(n // 3):
-        ctx = Ctx(rng, True, rng.choice(['rn', 'rn', 'wrn', 'discr']))
+        ctx = Ctx(rng, True, rng.choice(['rn', 'rn', 'wrn', 'discr', 'prod']))
         depth = rng.randint(1, maxd)
         ran = rng.choice(DIMS + ['F', 'F'])
         t = gen(ctx, depth, rng.choice(DIMS), ran, p_bad=0.03)
@@ -1168,15 +1253,15 @@ def _oracle_values(ctx, t, o, xs, d, rr):
         exact = track[0] <= MAXMAG and track[1]
         if track[0] > 10 ** 100:
             continue            # float overflow territory: out of scope (exact-arithmetic idealisation)
-        xe = o.domain.element(x)
+        xe = pput(o.domain, x)
         xcopy = xe.copy()
-        xbytes = np.asarray(xe).tobytes()
+        xbytes = pflat(xe).tobytes()
         got = flat(ctx, o(xe))
         scale = 0.0 if exact else float(track[0])
         if not _close(ctx, got, want, exact, scale):
             return ('value', 'x=%r got %r expected %r' % (x, got, [w.c() for w in want]))
         if rr != 'F':
-            buf = o.range.element(np.full(rr, np.nan))
+            buf = pput(o.range, np.full(rr, np.nan))
             res = o(xe, out=buf)
             if res is not buf or not _close(ctx, flat(ctx, buf), want, exact, scale):
                 return ('value-inplace', 'x=%r got %r expected %r' % (x, flat(ctx, buf), [w.c() for w in want]))
@@ -1184,7 +1269,7 @@ def _oracle_values(ctx, t, o, xs, d, rr):
         if not _close(ctx, again, want, exact, scale):
             return ('value-second-evaluation', 'x=%r second call got %r expected %r'
                     % (x, again, [w.c() for w in want]))
-        if np.asarray(xe).tobytes() != xbytes:
+        if pflat(xe).tobytes() != xbytes:
             return ('mutates-x', 'x=%r became %r' % (x, flat(ctx, xe)))
         if rr != 'F' and o.domain == o.range and all(l.alias_safe for l in leaves_of(t)):
             # `out` aliased to the input: the in-place bodies route through temporaries for this
@@ -1304,6 +1389,30 @@ def _fixed_trees(ctx):
     return out
 
 
+def _reflected_trees(ctx):
+    """Left operand of an Operator* class, right operand of its Functional* subclass: Python runs the
+    right operand's reflected __radd__ / __rmul__ FIRST (sum: operands swapped; product: same TypeError)."""
+    L = lambda d, r, w=None: ('leaf', make_leaf(ctx, d, r, w))
+    a, b = ctx.num(small=True), ctx.num(small=True)
+    v = ctx.ivec(2)
+    ip, f, M = L(2, 'F', 'ip'), L(2, 'F', 'func'), L(2, 2)
+    nq = L(2, 'F', 'nquad')
+    pairs = [(('add', ip, L(2, 'F', 'ip')), ('add', f, L(2, 'F', 'func'))),          # OperatorSum / FunctionalSum
+             (('add', ip, nq), ('addc', f, a)),                                        # OperatorSum / FunctionalScalarSum
+             (('mul', ip, M), ('mul', f, L(2, 2))),                                    # OperatorComp / FunctionalComp
+             (('cmul', nq, a), ('cmul', f, b)),                                        # LeftScalarMult
+             (('mulc', nq, a), ('mulc', L(2, 'F', 'fquad'), b)),                       # RightScalarMult
+             (('mulv', nq, v), ('mulv', f, v))]                                        # RightVectorMult
+    out = []
+    for x, y in pairs:
+        out += [('add', x, y), ('add', y, x), ('sub', x, y), ('mul', x, y), ('matmul', x, y), ('mul', y, x)]
+    P, Q = ('mul', L(2, 2), L(2, 2)), ('mul', f, L(2, 2))        # (2->2) * (2->F): ill-typed, both dispatch paths
+    out += [('mul', P, Q), ('matmul', P, Q), ('mul', ('cmul', L(2, 2, 'nonlin'), a), ('cmul', f, b)),
+            ('mul', ('mulc', L(2, 2, 'nonlin'), a), ('mulc', L(2, 'F', 'fquad'), b)),
+            ('mul', ('mulv', L(2, 2), v), ('mulv', f, v)), ('mul', ('add', L(2, 2), L(2, 2)), ('add', f, f))]
+    return out
+
+
 def _memory_trees(ctx):
     """Patterns that are only wrong when a leaf is not alias-safe in place, or returns (a view of) its
     input out of place: powers n = 3, 4 (nested compositions, evaluated in place), a sub-expression used
@@ -1322,6 +1431,263 @@ def _memory_trees(ctx):
                 ('mulc', A, a), ('mulv', A, v), ('vmul', ('mul', A, A), v), ('vmul', ('vmul', A, v), w),
                 ('add', ('cmul', A, a), ('vmul', A, v)), ('vmul', ('leaf', make_leaf(ctx, 2, 'F')), v),
                 ('add', ('mul', A, B), ('mul', B, A)), ('mul', S, S)]
+    return out
+
+
+# ---- mixed real / complex trees (probes only: the Coq model has one scalar field per tree) ----
+def _mixed_pool():
+    """name -> (domain field, range field, is_linear, numpy reference, constructor); all spaces have size 2"""
+    import numpy as np
+    import odl
+    r2, c2 = odl.rn(2), odl.cn(2)
+    Mr = np.array([[1., 2.], [0., -1.]])
+    Mc = np.array([[1j, 2.], [1., 1 - 1j]])
+    return {
+        'Re': ('C', 'R', True, lambda x: x.real + 0j, lambda: odl.RealPart(c2)),
+        'Im': ('C', 'R', True, lambda x: x.imag + 0j, lambda: odl.ImagPart(c2)),
+        'Emb': ('R', 'C', True, lambda x: x, lambda: odl.ComplexEmbedding(r2)),
+        'Ar': ('R', 'R', True, lambda x: Mr.dot(x), lambda: odl.MatrixOperator(Mr)),
+        'Ac': ('C', 'C', True, lambda x: Mc.dot(x), lambda: odl.MatrixOperator(Mc)),
+        'Sr': ('R', 'R', False, lambda x: x * x, lambda: odl.PowerOperator(r2, 2)),
+        'Sc': ('C', 'C', False, lambda x: x * x, lambda: odl.PowerOperator(c2, 2)),
+    }
+
+
+def _mixed_gen(rng, depth, df, rf):
+    """random tree  (field df)^2 -> (field rf)^2"""
+    pool = _mixed_pool()
+    leaves = [n for n, (d, r, _, _, mk) in pool.items() if (d, r) == (df, rf)]
+    if depth <= 0 or (leaves and rng.random() < 0.25):
+        if leaves:
+            return ('leaf', rng.choice(leaves))
+        mid = rng.choice('RC')
+        return ('mul', _mixed_gen(rng, 0, mid, rf), _mixed_gen(rng, 0, df, mid))
+    k = rng.choice(['mul', 'mul', 'add', 'sub', 'mulc', 'cmul', 'addc', 'neg', 'mulv', 'vmul', 'addv', 'divc'])
+    d1 = depth - 1
+    sc = lambda: rng.choice([2.0, -1.0, 0.5, 3, 1j, 1 - 1j, 2 + 0j])
+    vec = lambda f: [rng.randint(-2, 2) + (1j * rng.randint(-1, 1) if f == 'C' else 0) for _ in range(2)]
+    if k == 'mul':
+        mid = rng.choice('RC')
+        return ('mul', _mixed_gen(rng, d1, mid, rf), _mixed_gen(rng, d1, df, mid))
+    if k in ('add', 'sub'):
+        return (k, _mixed_gen(rng, d1, df, rf), _mixed_gen(rng, d1, df, rf))
+    if k == 'neg':
+        return ('neg', _mixed_gen(rng, d1, df, rf))
+    if k in ('mulc', 'cmul', 'addc', 'divc'):
+        return (k, _mixed_gen(rng, d1, df, rf), sc())
+    if k == 'mulv':
+        return ('mulv', _mixed_gen(rng, d1, df, rf), vec(rng.choice([df, df, 'C' if df == 'R' else 'R'])), None)
+    return (k, _mixed_gen(rng, d1, df, rf), vec(rng.choice([rf, rf, 'C' if rf == 'R' else 'R'])), None)
+
+
+def _mx_isreal(a):
+    return not isinstance(a, complex) and not (hasattr(a, 'dtype') and a.dtype.kind == 'c')
+
+
+def _mx_vfield(v):
+    return 'C' if any(isinstance(u, complex) for u in v) else 'R'
+
+
+def _mixed_type(t):
+    """(df, rf, implied linear) by the documented rules (scalars/vectors must belong to the stated field/space)"""
+    k = t[0]
+    pool = _mixed_pool()
+    if k == 'leaf':
+        d, r, lin, _, _ = pool[t[1]]
+        return d, r, lin
+    d, r, lin = _mixed_type(t[1])
+    if k == 'mul':
+        d2, r2, l2 = _mixed_type(t[2])
+        if r2 != d:
+            raise RefErr()
+        return d2, r, lin and l2
+    if k in ('add', 'sub'):
+        d2, r2, l2 = _mixed_type(t[2])
+        if (d2, r2) != (d, r):
+            raise RefErr()
+        return d, r, lin and l2
+    if k == 'neg':
+        return d, r, lin
+    if k in ('mulc', 'divc'):       # scalar of the DOMAIN field
+        if d == 'R' and not _mx_isreal(t[2]):
+            raise RefErr()
+        return d, r, lin
+    if k in ('cmul', 'addc'):       # scalar of the RANGE field
+        if r == 'R' and not _mx_isreal(t[2]):
+            raise RefErr()
+        return d, r, (lin if k == 'cmul' else False)
+    if k == 'mulv':
+        if _mx_vfield(t[2]) != d:
+            raise RefErr()
+        return d, r, lin
+    if k in ('vmul', 'addv'):
+        if _mx_vfield(t[2]) != r:
+            raise RefErr()
+        return d, r, (lin if k == 'vmul' else False)
+    raise AssertionError(k)
+
+
+def _mixed_eval(t, x):
+    import numpy as np
+    k = t[0]
+    if k == 'leaf':
+        return _mixed_pool()[t[1]][3](x)
+    if k == 'mul':
+        return _mixed_eval(t[1], _mixed_eval(t[2], x))
+    if k == 'add':
+        return _mixed_eval(t[1], x) + _mixed_eval(t[2], x)
+    if k == 'sub':
+        return _mixed_eval(t[1], x) - _mixed_eval(t[2], x)
+    if k == 'neg':
+        return -_mixed_eval(t[1], x)
+    if k == 'mulc':
+        return _mixed_eval(t[1], t[2] * x)
+    if k == 'divc':
+        return _mixed_eval(t[1], x / t[2])
+    if k == 'cmul':
+        return t[2] * _mixed_eval(t[1], x)
+    if k == 'addc':
+        return _mixed_eval(t[1], x) + t[2]
+    if k == 'mulv':
+        return _mixed_eval(t[1], np.array(t[2]) * x)
+    if k == 'vmul':
+        return np.array(t[2]) * _mixed_eval(t[1], x)
+    if k == 'addv':
+        return _mixed_eval(t[1], x) + np.array(t[2])
+    raise AssertionError(k)
+
+
+def _mixed_build(t):
+    import odl
+    k = t[0]
+    if k == 'leaf':
+        return _mixed_pool()[t[1]][4]()
+    a = _mixed_build(t[1])
+    if k == 'mul':
+        return a * _mixed_build(t[2])
+    if k == 'add':
+        return a + _mixed_build(t[2])
+    if k == 'sub':
+        return a - _mixed_build(t[2])
+    if k == 'neg':
+        return -a
+    if k == 'mulc':
+        return a * t[2]
+    if k == 'divc':
+        return a / t[2]
+    if k == 'cmul':
+        return t[2] * a
+    if k == 'addc':
+        return a + t[2]
+    sp = lambda v: (odl.cn(2) if _mx_vfield(v) == 'C' else odl.rn(2)).element(v)
+    if k == 'mulv':
+        return a * sp(t[2])
+    if k == 'vmul':
+        return sp(t[2]) * a
+    if k == 'addv':
+        return a + sp(t[2])
+    raise AssertionError(k)
+
+
+def mixed_oracle(t, x):
+    """None when the property holds on this mixed real/complex tree, else (kind, detail)."""
+    import numpy as np
+    try:
+        d, r, lin = _mixed_type(t)
+        typed = True
+    except RefErr:
+        typed = False
+    try:
+        o = _mixed_build(t)
+        err = None
+    except (TypeError, ZeroDivisionError) as e:
+        err = type(e).__name__
+    except Exception as e:   # noqa
+        return ('raises-other', type(e).__name__)
+    if not typed:
+        return None if err else ('accepts-ill-typed', type(o).__name__)
+    if err:
+        return ('rejects-well-typed', err)
+    import odl
+    if (o.domain == odl.cn(2)) != (d == 'C') or (o.range == odl.cn(2)) != (r == 'C'):
+        return ('domain-range', '%s -> %s built %r -> %r' % (d, r, o.domain, o.range))
+    if lin and not o.is_linear:
+        return ('flag-not-linear', 'implied linear')
+    xv = np.array(x, dtype=complex)
+    want = _mixed_eval(t, xv)
+    xe = o.domain.element(xv if d == 'C' else xv.real)
+    for rep in range(2):
+        got = np.asarray(o(xe)).astype(complex)
+        if not np.allclose(got, want, rtol=1e-12, atol=1e-12):
+            return ('value', 'x=%r got %r expected %r' % (x, got.tolist(), want.tolist()))
+    buf = o.range.element(np.full(2, np.nan))
+    o(xe, out=buf)
+    if not np.allclose(np.asarray(buf).astype(complex), want, rtol=1e-12, atol=1e-12):
+        return ('value-inplace', 'x=%r got %r expected %r' % (x, np.asarray(buf).tolist(), want.tolist()))
+    return None
+
+
+def _mixed_min(t, x):
+    for c in [u for u in t[1:3] if isinstance(u, tuple) and u and u[0] in
+              ('leaf', 'mul', 'add', 'sub', 'neg', 'mulc', 'cmul', 'addc', 'divc', 'mulv', 'vmul', 'addv')]:
+        try:
+            d = _mixed_type(c)[0]
+        except RefErr:
+            d = 'C'
+        f = _mixed_min(c, [complex(u).real for u in x] if d == 'R' else x)
+        if f is not None:
+            return f
+    res = mixed_oracle(t, x)
+    return None if res is None else (t, x, res)
+
+
+def mixed_replay(t, x):
+    res = mixed_oracle(t, x)
+    return res is None, res, None
+
+
+def _mixed_skel(t):
+    return t[1] if t[0] == 'leaf' else '%s(%s)' % (t[0], ','.join(_mixed_skel(u) for u in t[1:3] if isinstance(u, tuple) and u and isinstance(u[0], str)))
+
+
+def mixed_probes(rng, n):
+    out = []
+    L = lambda n_: ('leaf', n_)
+    fixed = [('mulc', ('mul', L('Emb'), L('Im')), 1 - 1j), ('mulc', ('mul', L('Emb'), L('Re')), 1j),
+             ('divc', ('mul', L('Emb'), L('Re')), 1j), ('mulc', ('mul', L('Ac'), ('mul', L('Emb'), L('Im'))), 2j),
+             ('mulc', L('Emb'), 1j), ('mulc', L('Re'), 1j), ('mulc', L('Im'), 1 - 1j), ('cmul', L('Re'), 1j),
+             ('cmul', L('Emb'), 1j), ('mulc', L('Ac'), 1j), ('mulc', L('Ac'), 2.0), ('mulc', L('Sc'), 1j),
+             ('mulc', L('Sr'), 1j), ('addc', L('Re'), 1j), ('addc', L('Emb'), 1j), ('mulc', ('mul', L('Re'), L('Ac')), 1j),
+             ('mul', L('Ar'), L('Ac')), ('mul', L('Ac'), L('Emb')), ('add', L('Re'), L('Im')), ('sub', L('Emb'), L('Ac'))]
+    for i in range(n + len(fixed)):
+        if i < len(fixed):
+            t = fixed[i]
+            try:
+                df = _mixed_type(t)[0]
+            except RefErr:
+                df = _mixed_type(t[1])[0] if t[0] not in ('mul', 'add', 'sub') else 'C'
+        else:
+            df, rf = rng.choice('RC'), rng.choice('RC')
+            t = _mixed_gen(rng, rng.randint(1, 3), df, rf)
+        x = [complex(rng.randint(-2, 2), rng.randint(-2, 2) if df == 'C' else 0) for _ in range(2)]
+        f = _mixed_min(t, x)
+        if f is None:
+            out.append(C.Probe(True, 'mixed', 'mixed real/complex tree vs reference interpreter'))
+            continue
+        ft, fx, res = f
+        opnd = ft[1][1] if (len(ft) > 1 and isinstance(ft[1], tuple) and ft[1][0] == 'leaf') else \
+            (ft[1][0] if len(ft) > 1 and isinstance(ft[1], tuple) else '')
+        key = 'mixed-field:%s:%s:%s' % (res[0], ft[0], opnd)
+        if res[0] == 'accepts-ill-typed' and ft[0] in ('mulc', 'divc'):
+            # A * a with a complex a and a real domain: accepted when A is linear with a complex range
+            key = 'mixed-field:complex-right-scalar-on-real-domain-accepted-for-linear'
+        if res[0] in ('value', 'value-inplace') and ft[0] in ('mulc', 'divc') and isinstance(ft[2], complex):
+            # A * a rewritten to a * A for an A that is flagged linear but only REAL-linear (it contains
+            # RealPart / ImagPart): wrong value for a complex a
+            key = 'mixed-field:complex-right-scalar-shortcut-on-real-linear-operator'
+        rp = ("import sys\nsys.path.insert(0, %r)\nfrom harness import c04 as H\n"
+              "ok, observed, expected = H.mixed_replay(%r, %r)\n" % (C.VERIF, ft, fx))
+        out.append(C.Probe(False, key, '%s: %s on %s' % (res[0], res[1], _mixed_skel(ft)), rp))
     return out
 
 
@@ -1434,7 +1800,7 @@ def probes(rng, tier):
     n = 400 if tier == 'quick' else 4000
     maxd = 5 if tier == 'quick' else 8
     for i in range(n):
-        ctx = Ctx(rng, (i % 3 == 2), rng.choice(['rn', 'rn', 'wrn', 'discr']))
+        ctx = Ctx(rng, (i % 3 == 2), rng.choice(['rn', 'rn', 'wrn', 'discr', 'prod']))
         ran = rng.choice(DIMS + ['F', 'F'])
         d = rng.choice(DIMS)
         t = gen(ctx, rng.randint(1, maxd), d, ran, p_bad=0.04)
@@ -1448,11 +1814,18 @@ def probes(rng, tier):
                 xs = [ctx.ivec(2, -2, 2) for _ in range(2)]
                 out.append(_tree_probe(ctx, t, xs, 'fixed interaction pattern vs reference interpreter'))
     for cplx in (False, True):
+        ctx = Ctx(rng, cplx)
+        for t in _reflected_trees(ctx):
+            xs = [ctx.ivec(2, -2, 2) for _ in range(2)]
+            out.append(_tree_probe(ctx, t, xs, 'reflected-method-first pattern vs reference interpreter'))
+    for cplx in (False, True):
         for kind in ('rn', 'discr', 'wrn'):
             ctx = Ctx(rng, cplx, kind)
             for t in _memory_trees(ctx):
                 xs = [ctx.ivec(2, -2, 2) for _ in range(2)]
                 out.append(_tree_probe(ctx, t, xs, 'memory-contract pattern vs reference interpreter'))
+    # 2a. mixed real/complex trees (RealPart, ImagPart, ComplexEmbedding between rn and cn)
+    out += mixed_probes(rng, 300 if tier == 'quick' else 3000)
     # 2b. operand kinds outside the syntax must be rejected with TypeError (no silent garbage)
     import numpy as np
     r2 = odl.rn(2)
